@@ -4,7 +4,7 @@
 (* shapes (conversion ok / fails; hook ok / fails; hook performs up to E   *)
 (* edits drawn from EditU) x parse inputs and builder inputs.              *)
 (***************************************************************************)
-EXTENDS ShapeMachine, Json, TLCExt
+EXTENDS ShapeMachine, Json, TLCExt, FiniteSets, SequencesExt
 CONSTANT E
 
 S(x) == x
@@ -25,7 +25,13 @@ ParseInputs == { PKG \o <<84,121,47,110,115,47,110,64,49,63,107,61,118,35,115>>,
                  PKG \o <<116,47,37,56,48>>,                                              \* pkg:t/%80  (bad escape after the type)
                  <<116,47,110>>,                                                          \* t/n        (no scheme)
                  PKG \o <<116,47>>,                                                       \* pkg:t/     (no name)
-                 PKG \o <<233,47,110>> }                                                  \* pkg:e-acute/n (non-ASCII type)
+                 PKG \o <<233,47,110>>,                                                   \* pkg:e-acute/n (non-ASCII type)
+                 \* a defect after a well-formed type (the conversion may or may not have been tried), and two defects at once
+                 PKG \o <<116,47,110,63,107>>,                                            \* pkg:t/n?k      (qualifier without '=')
+                 PKG \o <<116,47,110,35,37,56,48>>,                                       \* pkg:t/n#%80    (bad escape in the subpath)
+                 PKG \o <<116,63,107,61,118>>,                                            \* pkg:t?k=v      (no name, type well-formed)
+                 PKG \o <<116,33,47,110,63,107>>,                                         \* pkg:t!/n?k     (invalid type and bad qualifier)
+                 PKG \o <<116,47,37,56,48,63,107,61,49,38,75,61,50>> }                    \* pkg:t/%80?k=1&K=2 (bad escape and repeated key)
 BuildInputs == { [st |-> <<84,121>>, parts |-> [NoParts EXCEPT !.name = <<110>>, !.quals = << <<<<107>>, <<118>>>> >>]],
                  [st |-> <<116>>, parts |-> NoParts],
                  [st |-> <<33>>, parts |-> [NoParts EXCEPT !.name = <<110>>]] }              \* type "!": Display must panic
@@ -33,22 +39,40 @@ BuildInputs == { [st |-> <<84,121>>, parts |-> [NoParts EXCEPT !.name = <<110>>,
 VARIABLES input
 vars == <<mvars, input>>
 Init == MInit /\ input = <<>>
-\* the built-in shapes go through the same machine (consistency of the step machine with ParseF / BuildF; no case is emitted)
+\* the built-in shapes go through the same machine (no case is emitted for them)
 BuiltinInputs == ParseInputs \cup { PKG \o <<109,97,118,101,110,47,110>>, PKG \o <<80,121,80,105,47,65,95,46,98,64,49>>, PKG \o <<110,117,103,101,116,47,103,47,65,198>> }
-Begin == \/ \E s \in ParseInputs, shp \in Shapes : MBeginParse(s, shp) /\ input' = [entry |-> "parse", s |-> s]
-         \/ \E s \in BuiltinInputs, shp \in {Generic, Typed} : MBeginParse(s, shp) /\ input' = [entry |-> "parse", s |-> s]
-         \/ \E b \in BuildInputs, shp \in Shapes : MBeginBuild(b.st, b.parts, shp) /\ input' = [entry |-> "build", st |-> b.st, parts |-> b.parts]
-Conv == MConv(front.type) /\ UNCHANGED input
+Begin == /\ pc = "idle"
+         /\ \/ \E s \in ParseInputs, shp \in Shapes : MBeginParse(s, shp) /\ input' = [entry |-> "parse", s |-> s]
+            \/ \E s \in BuiltinInputs, shp \in {Generic, Typed} : MBeginParse(s, shp) /\ input' = [entry |-> "parse", s |-> s]
+            \/ \E b \in BuildInputs, shp \in Shapes : MBeginBuild(b.st, b.parts, shp) /\ input' = [entry |-> "build", st |-> b.st, parts |-> b.parts]
+\* every behaviour of the machine: the callbacks in any admitted order, every admitted outcome
+Conv == MConv(info.type) /\ UNCHANGED input
 Finish == LET r == StepFinish(shape, st, parts, LowerTab) IN
           MFinish(parts, IF r.ok THEN r.parts ELSE parts, r.ok) /\ UNCHANGED input
+End == \E o \in AllowedOut : MEnd(o) /\ UNCHANGED input
 \* the machine stops at "end": one call per behaviour
-Next == Begin \/ Conv \/ Finish
+Next == Begin \/ Conv \/ Finish \/ End
 Spec == Init /\ [][Next]_vars
 
-\* the step machine computes what the composed operators compute
-MachineIsParseF == pc = "end" =>
-     IF entry = "parse" THEN out = ParseF(input.s, shape, LowerTab) ELSE out = BuildF(shape, input.st, input.parts, LowerTab)
-Emit == (pc = "end" /\ shape.kind = "test") =>
+Fresh == pc = "open" /\ conv = "none" /\ hook = "none"
+Allowed == IF input.entry = "parse" THEN AllowedParse(input.s, shape) ELSE AllowedBuild(input.st, input.parts, shape)
+\* what the library does today, in the order it does it (PurlParse!ParseF, PurlBuild!BuildF)
+LibOut == IF input.entry = "parse" THEN ParseF(input.s, shape, LowerTab) ELSE BuildF(shape, input.st, input.parts, LowerTab)
+LibConv == IF input.entry = "parse" /\ ParseFront(input.s).ok THEN 1 ELSE 0
+LibFin == IF input.entry = "build" THEN 1
+          ELSE LET f == ParseFront(input.s) IN
+               IF f.ok /\ ShapeConv(shape, f.type).ok /\ ParseBack(f).ok THEN 1 ELSE 0
+\* the order-free analysis of the string agrees with the transcribed parser
+C14_Analysis == (Fresh /\ input.entry = "parse") => InfoMatchesParse(input.s)
+\* the library's present order of evaluation is one of the behaviours the machine admits ...
+LibraryOrderAdmitted == Fresh => (LibOut \in Allowed.outs /\ LibConv \in Allowed.nconv /\ LibFin \in Allowed.nfin)
+\* ... and the summary handed to the replay is what the machine does: every behaviour ends inside it
+MachineWithinAllowed == pc = "end" => (out \in Allowed.outs /\ nConv \in Allowed.nconv /\ nFin \in Allowed.nfin)
+\* when the input has at most one defect the outcome is determined
+SingleDefectDetermined == (Fresh /\ input.entry = "parse" /\ Cardinality(info.defects) <= 1 /\ (info.clean \/ ~info.typeKnown \/ ShapeConv(shape, info.type).ok))
+                            => (Cardinality(Allowed.outs) = 1 \/ info.clean)
+Emit == (Fresh /\ shape.kind = "test") =>
      PrintT(<<"CASE", ToJson([k |-> "shape", input |-> input, shape |-> [conv |-> shape.conv, fin |-> shape.fin, edits |-> shape.edits],
-                               out |-> Outcome(out), nconv |-> nConv, nfin |-> nFin])>>)
+                               outs |-> SetToSeq({Outcome(o) : o \in Allowed.outs}),
+                               nconv |-> SetToSeq(Allowed.nconv), nfin |-> SetToSeq(Allowed.nfin)])>>)
 =============================================================================
